@@ -238,6 +238,9 @@ type ChoiceCase struct {
 	dataDefsIndex  map[string]Definition
 	ifs            []*IfFeature
 	extensions     []*Extension
+
+	// not written as a case statement: stands around a node written directly in the choice
+	implied bool
 }
 
 func (y *ChoiceCase) setParent(p Meta) {
